@@ -274,7 +274,7 @@ func c17Batch(r *mon.Run, bi int) {
 }
 
 func runC17(r *mon.Run) {
-	r.SetRule("random maps of 0-8 keys (key alphabet: printable ASCII without space, quote, colon; some conventional names) to values drawn from the C12 string generator (quotes, backquotes, newlines, invalid UTF-8, raw bytes); nil and empty maps; 1,000 fields per rendered struct, formatted and NoFormat; non-trivial = non-empty map; distinct by map content")
+	r.SetRule("random maps of 0-8 keys (key alphabet: printable ASCII without space, quote, colon; some conventional names) to values drawn from the C12 string generator (quotes, backquotes, newlines, invalid UTF-8, raw bytes); nil and empty maps; maps that are empty or smaller when Tag is called and filled before (or between) renders; 1,000 fields per rendered struct, formatted and NoFormat; non-trivial = non-empty map; distinct by map content")
 	r.NegControl("value-altered-before-lookup", func() {
 		probs, fatal := judgeTagSource([]byte("package p\ntype T struct {\n\tF0 int `a:\"\\ufffd\"`\n}\n"), []map[string]string{{"a": "\xff"}})
 		if fatal != "" || len(probs) > 0 {
@@ -299,9 +299,62 @@ func runC17(r *mon.Run) {
 			r.Violate("negctl", mon.Case{Gen: "negctl"}, "accepted (expected)")
 		}
 	})
+	c17Lifetime(r)
 	n := r.Pick(12, 3000)
 	mon.Parallel(n, func(i int) { c17Batch(r, i) })
 	r.Sample(map[string]interface{}{"maps": []string{fmt.Sprintf("%q", randTagMap(r.Rand("C17/maps", 0))), `{"a": "` + "`" + `", "b": "\"\n\\"}`}})
 }
 
-func replayC17(r *mon.Run, c mon.Case) { c17Batch(r, int(c.Index)) }
+// c17Lifetime: the map given to Tag is the caller's and is read when the statement is rendered: a map that was empty
+// (or smaller) when Tag was called and is filled before rendering gives the tag of its final content; a map changed
+// between two renders gives the tag of its content at each render.
+func c17Lifetime(r *mon.Run) {
+	c := mon.Case{Gen: "lifetime", Seed: r.Seed}
+	rnd := r.Rand("C17/lifetime", 0)
+	for round := 0; round < 40; round++ {
+		final := randTagMap(rnd)
+		for len(final) == 0 {
+			final = randTagMap(rnd)
+		}
+		for _, start := range []string{"empty", "one-key", "nil-then-made"} {
+			m := map[string]string{}
+			if start == "one-key" {
+				for k, v := range final {
+					m[k] = v
+					break
+				}
+			}
+			f := jen.NewFile("p")
+			f.NoFormat = round%2 == 0
+			f.Type().Id("T").Struct(jen.Id("F0").Int().Tag(m))
+			if start == "nil-then-made" {
+				renderFile(f) // rendered once while the map is still empty
+			}
+			for k, v := range final {
+				m[k] = v
+			}
+			src, fail := renderFile(f)
+			if fail != "" {
+				r.Violate("tag-render-failure", c, "map filled after Tag (%s): %s", start, fail)
+				continue
+			}
+			probs, fatal := judgeTagSource(src, []map[string]string{final})
+			if fatal != "" {
+				r.Violate("tag-batch", c, "map filled after Tag (%s): %s\n%s", start, fatal, mon.Trunc(string(src), 400))
+			}
+			for _, p := range probs {
+				r.Violate("tag-roundtrip", c, "a map that was %s when Tag was called and holds %d keys when the statement is rendered: %s\n%s", start, len(final), p, mon.Trunc(string(src), 400))
+			}
+			r.Count("maps_filled_after_Tag", 1)
+		}
+	}
+	r.Eval("lifetime", true)
+}
+
+func replayC17(r *mon.Run, c mon.Case) {
+	if c.Gen == "lifetime" {
+		c17Lifetime(r)
+		return
+	}
+	c17Batch(r, int(c.Index))
+}
